@@ -96,6 +96,7 @@ def check_history(alpha, hist, from_step=0, collect_state=None, prefilled=False,
     unstamp = (lambda ts: 1000 - ts) if desc_ts else (lambda ts: ts)
     ident = {id(events[i_][s_]): i_ for i_, s_ in enumerate(hist)} if same_ts else None
     last_start = {}
+    reported = []
     gen_out = None
     if via_generator:
         # the same events through the lazy entry point that PyKdebugParser.traces uses; a trace is attributed to the step whose
@@ -158,6 +159,10 @@ def check_history(alpha, hist, from_step=0, collect_state=None, prefilled=False,
                 may_swallow = fragcap and q == 0
         if got is not None:
             emitted += 1
+            try:
+                reported.append((i, got, tuple(id(x) for x in got.ktraces)))
+            except Exception:
+                pass
         if not judge:
             continue
         # ---- oracle
@@ -214,6 +219,14 @@ def check_history(alpha, hist, from_step=0, collect_state=None, prefilled=False,
                             ok = False
                 if not ok:
                     return ('stray-END-changed-state', i, {'before': before, 'after': after}), emitted, matched
+    # what was reported stays as it was reported: no trace's event list grows, shrinks or is overwritten by later events
+    for step, tr, ids in reported:
+        try:
+            now = tuple(id(x) for x in tr.ktraces)
+        except Exception:
+            continue
+        if now != ids:
+            return ('reported-window-changed-later', step, {'events_when_reported': len(ids), 'events_at_the_end': len(now)}), emitted, matched
     if collect_state is not None:
         collect_state.add(h64(canon_abstract(p)))
     return None, emitted, matched
@@ -251,7 +264,7 @@ class C04(Check):
             'reference model of the statement in lockstep (every maximal history is run; each shorter history is '
             'judged as a prefix exactly once). Cases are distinct by construction (each element of the product is '
             'enumerated once); non-trivial = the history contains at least one END that matches an open START of '
-            'the same code on the same thread. Every history of depth 3 over a 16-symbol (quick) / 40-symbol (thorough) alphabet also goes through EVERY entry point that reaches the pairing layer (feed, feed_generator, PyKdebugParser.traces on a v2 file, on a v3 file with one chunk and with one chunk per record) and all must agree. Alphabets marked +ts carry decreasing timestamps (stream order is arrival order, not stamp order); alphabets marked +same stamp every record alike, so that two records of one kind are equal field by field (positions are then recovered by object identity); alphabets marked +gen go through feed_generator (the lazy entry point PyKdebugParser.traces uses) instead of feed(); alphabets marked +map are fed to a parser whose thread map was already populated when it was built. states = distinct canonical window-table states (positions '
+            'the same code on the same thread. Every history of depth 3 over a 16-symbol (quick) / 40-symbol (thorough) alphabet also goes through EVERY entry point that reaches the pairing layer (feed, feed_generator, PyKdebugParser.traces on a v2 file, on a v3 file with one chunk and with one chunk per record) and all must agree. Alphabets marked +ts carry decreasing timestamps (stream order is arrival order, not stamp order); alphabets marked +same stamp every record alike, so that two records of one kind are equal field by field (positions are then recovered by object identity); alphabets marked +gen go through feed_generator (the lazy entry point PyKdebugParser.traces uses) instead of feed(); alphabets marked +map are fed to a parser whose thread map was already populated when it was built. At the end of every history each reported trace still holds exactly the event objects it held when it was reported. states = distinct canonical window-table states (positions '
             'abstracted) reached at the end of a history; transitions = real feed() calls.')
     assumptions = (
         'codes used: BSC_getpid/BSC_getuid (ordinary), TRACE_DATA_EXEC/TRACE_STRING_PROC_EXIT (trace domain), '
